@@ -248,6 +248,8 @@ def gen_splices():
 PREFIX_CASES = ['u8"a"', 'u8 "a"', 'u8x', "u8'a'", 'L"x"', 'LL"x"', 'u"x"', "U'\\''", 'u8', 'u88"x"', 'U8"x"', 'l"x"', "L 'a'", 'uu"x"',
                 'u8/**/"a"', 'L/**/\'a\'', 'u\\\n8"a"', 'u8\\\n"a"', 'L\\\n"a"', 'Lu"a"', 'uL"a"', 'u8u8"a"', 'U"a"U"b"', "u'a'u'b'",
                 'a/**/b', 'a//x\nb', 'a/ /b', 'a/*/b*/c', 'a / * b */ d', 'a/**//**/b', '/**/a', 'a/**/', '/*/**/x', '/* * / */y',
+                # a prefix letter followed by 8 is a prefix only for u8; both quote characters may be escaped in both kinds of literal
+                'L8"abc"', "U8'x'", "L8'c'", 'L8 "abc"', 'u8"a"u8"b"', "'\\\"'", '"it\\\'s"', "L'\\\"'", '"\\\'"', "'\\''", '"\\""', 'u"\\\'\\""', "U'\\\"'",
                 'a/*\n*/b', 'a/* \\\n */b', 'a//\\\nstill comment\nb', '/\\\n* c *\\\n/ d', '/\\\n/ c\nd']
 
 
